@@ -44,6 +44,11 @@ def run(ck):
             seqs = [gen.rand_seq(rng, gen.DNA if kind == 'dna' else gen.PROT + 'BZXJOU', L) for _ in seqs]
         if rng.chance(1, 10):
             seqs[rng.below(len(seqs))] = ''
+        elif rng.chance(1, 10):     # several header-only records, scattered, one of them the last (their removal must not touch the others)
+            seqs = list(seqs) + ['']
+            for _ in range(rng.range(1, 3)):
+                seqs.insert(rng.below(len(seqs)), '')
+            ck.count('prep: several empty records, one of them last')
         names = make_names(rng, len(seqs))
         rng.shuffle(names)
         lines.append('prep ' + ' '.join('%s:%s' % (gen.hexs(n), gen.hexs(s)) for n, s in zip(names, seqs)))
